@@ -38,6 +38,23 @@ class VariantEdge(Cut):
         return out or None
 
 
+class DataIs(Cut):
+    """A `match` on a plain value with a literal pattern (`StableSwap { amp: 0 } => Err(..)`): assume the value IS the literal, i.e.
+    remove every edge of a switch on a value whose origins match `pat` except the one labelled `label`."""
+
+    def __init__(self, name, pat, label):
+        self.name = name
+        self.pat = pat
+        self.label = label
+
+    def remove(self, I, frame, pname, pargs, positive, labels3, opv):
+        if pname != "data" or not pargs or not hasattr(pargs[0], "atoms") or not origin_match(pargs[0], self.pat, require_all=False):
+            return None
+        if not any(v == self.label for (v, tb, vn) in labels3):
+            return None
+        return {tb for (v, tb, vn) in labels3 if v != self.label}
+
+
 class CallTrue(Cut):
     """Switch on the bool returned by a (local or external) function whose id matches: remove the
     edge taken when it returned true."""
